@@ -15,8 +15,9 @@ import NmlVerif.Gen.Handlers
 * `c07_handlers_private`, `c07_gen_cfg_private`, `c07_handler_use_gen`: every attribute a `NetworkBuilder` handler
   touches is private to the instance; the sharing configuration extracted from the source is "nothing shared"; the
   extracted access pattern of the handlers is the hand model's.
-* `c07_reuse_table_ok`: per-OBJECT state (one parser / builder object used for several files) that the next use may
-  see, outside the listed open findings.
+* `c07_reuse_table_ok`, `c07_reuse_tree`: no per-OBJECT state (one parser / builder object used for several files) that
+  the next use may see; the full reuse statements for the variant found in the source (repaired since
+  `fixes/C07-parser-builder-reuse.patch`).
 -/
 namespace NmlVerif.C07
 open NmlVerif.Glue
@@ -155,32 +156,23 @@ theorem c07_builders_independent_tree (es : List (Bool × HCall)) (w : World) (w
 
 /-! ## one object used for several files (Gen/Handlers.lean) -/
 
-/-- open finding `C07:reuse:*` of `known_findings.d/C07.json`: instance attributes that a later use of the same object
-    may read before assigning them.  `NetworkBuilder`: `handle_document_start` makes a new document but keeps
-    `self.network` and the seven tables.  `NeuroMLHdf5Parser`: `nml_doc_extra_elements` / `optimizedNetwork` (and, for
-    the analysis, `doc_id` / `doc_notes`) are assigned only if the file has the matching attribute / group; the cursor
-    fields are put back by `end_group` and stay dirty when a parse dies half way.  Empty once
-    `fixes/C07-parser-builder-reuse.patch` is applied. -/
-def KnownReuse : List String := [
-  "NetworkBuilder.input_lists", "NetworkBuilder.network", "NetworkBuilder.populations",
-  "NetworkBuilder.projection_syns", "NetworkBuilder.projection_syns_pre", "NetworkBuilder.projection_types",
-  "NetworkBuilder.projections", "NetworkBuilder.weightDelays",
-  "NeuroMLHdf5Parser.currInputList", "NeuroMLHdf5Parser.currOptInputList", "NeuroMLHdf5Parser.currOptPopulation",
-  "NeuroMLHdf5Parser.currOptProjection", "NeuroMLHdf5Parser.currPopulation", "NeuroMLHdf5Parser.currentComponent",
-  "NeuroMLHdf5Parser.currentPreSynapse", "NeuroMLHdf5Parser.currentProjectionId",
-  "NeuroMLHdf5Parser.currentProjectionPostPop", "NeuroMLHdf5Parser.currentProjectionPrePop",
-  "NeuroMLHdf5Parser.currentProjectionType", "NeuroMLHdf5Parser.currentSynapse", "NeuroMLHdf5Parser.doc_id",
-  "NeuroMLHdf5Parser.doc_notes", "NeuroMLHdf5Parser.nml_doc_extra_elements", "NeuroMLHdf5Parser.optimizedNetwork"]
+/-- formerly the open finding `C07:reuse:*` (instance attributes that a later use of the same object may read before
+    assigning them: `NetworkBuilder` kept `self.network` and its seven tables across `handle_document_start`;
+    `NeuroMLHdf5Parser` kept `nml_doc_extra_elements`, `optimizedNetwork`, `doc_id`, `doc_notes` and, after a failed
+    parse, its cursor fields).  Repaired by `fixes/C07-parser-builder-reuse.patch`: the list is empty, so ANY per-object
+    state that a next use may see breaks `c07_reuse_table_ok`. -/
+def KnownReuse : List String := []
 
 theorem c07_reuse_table_wf : NmlVerif.Gen.Handlers.reuseTable.wf = true := by decide
 
-/-- **no per-object state that the next use may see, outside the open finding** -/
+/-- **no per-object state that the next use may see** -/
 theorem c07_reuse_table_ok :
     NmlVerif.Gen.Handlers.reuseTable.okModulo NmlVerif.Gen.Handlers.names (KnownReuse ++ []) = true := by decide
 
-/-- **the n-th use of one object = its first use**, for every use whose read-first attributes are not part of the
-    open finding (today: `NeuroMLXMLParser.parse`; with the repair: all three): for every semantics respecting the
-    extracted per-object summaries, the result after any two histories of uses of the SAME objects is the same -/
+/-- **the n-th use of one object = its first use** (`KnownReuse = []`: the hypothesis `hk` is empty, every use of the
+    table qualifies — `NeuroMLHdf5Parser.parse; get_nml_doc`, `NeuroMLXMLParser.parse`, a document build on one
+    `NetworkBuilder`): for every semantics respecting the extracted per-object summaries, the result after any two
+    histories of uses of the SAME objects is the same -/
 theorem c07_reuse_history_independent (sem : EntrySummary → A → GState V → GState V × R)
     (hsem : ∀ e ∈ NmlVerif.Gen.Handlers.reuseTable.entries, ∀ a, Respects (sem e a) e.rbw e.writes)
     (e : EntrySummary) (he : e ∈ NmlVerif.Gen.Handlers.reuseTable.entries)
@@ -191,17 +183,29 @@ theorem c07_reuse_history_independent (sem : EntrySummary → A → GState V →
   c07_history_independent_inv _ (fun _ => True) _ sem (fun e he a => (hsem e he a).toInv) e he
     (entry_ok_of_okModulo _ _ KnownReuse [] c07_reuse_table_ok e he hk) a h h' hh hh' g trivial
 
-/-- the hypothesis `hk` is satisfiable on the tree under test: the use `NeuroMLXMLParser.parse` reads first no
-    attribute of the open finding -/
-example : ∃ e ∈ NmlVerif.Gen.Handlers.reuseTable.entries,
-    NmlVerif.Gen.Handlers.names[e.name]? = some "NeuroMLXMLParser.parse" ∧
-    ∀ v ∈ e.rbw, ∀ s, NmlVerif.Gen.Handlers.names[v]? = some s → s ∉ KnownReuse := by decide
+/-- the hypothesis `hk` holds for EVERY use of the table (nothing is listed any more) -/
+example : ∀ e ∈ NmlVerif.Gen.Handlers.reuseTable.entries,
+    ∀ v ∈ e.rbw, ∀ s, NmlVerif.Gen.Handlers.names[v]? = some s → s ∉ KnownReuse := by
+  intro e _ v _ s _ h
+  cases h
 
-/-- **the repaired statements at the tree under test**: when the translator finds that `handle_document_start` /
-    `parse` assign everything later steps read, the full reuse statements hold for the extracted variant -/
+/-- … and the table has the three uses -/
+example : NmlVerif.Gen.Handlers.reuseTable.entries.length = 3 ∧ NmlVerif.Gen.Handlers.reuseTable.violations = [] := by
+  decide
+
+/-- the translator finds the repaired shape in the tree under test: `handle_document_start` / `parse` assign
+    everything later steps read -/
+theorem c07_resets_found :
+    NmlVerif.Gen.Handlers.builderResets = true ∧ NmlVerif.Gen.Handlers.parserResets = true := by decide
+
+/-- **the full reuse statements hold for the code of the tree under test** (model variant = the one the translator
+    finds): the document a used `NetworkBuilder` builds, what a used `NeuroMLHdf5Parser` hands to its handler and what
+    it returns in optimized mode, do not depend on what the object was used for before.  (Un-repairing the code flips
+    the extracted flags: this theorem and `c07_resets_found` then fail, and the reuse streams find the input.) -/
 theorem c07_reuse_tree :
-    (NmlVerif.Gen.Handlers.builderResets = true → c07_builder_reuse_full NmlVerif.Gen.Handlers.builderResets) ∧
-    (NmlVerif.Gen.Handlers.parserResets = true → c07_parser_reuse_full NmlVerif.Gen.Handlers.parserResets) :=
-  ⟨fun h => h ▸ c07_builder_reuse_repaired, fun h => h ▸ c07_parser_reuse_repaired⟩
+    c07_builder_reuse_full NmlVerif.Gen.Handlers.builderResets ∧
+    c07_parser_reuse_full NmlVerif.Gen.Handlers.parserResets := by
+  rw [c07_resets_found.1, c07_resets_found.2]
+  exact ⟨c07_builder_reuse_repaired, c07_parser_reuse_repaired⟩
 
 end NmlVerif.C07
